@@ -341,3 +341,12 @@ func TestC12Matrix(t *testing.T) {
 	}
 	r.ClassN("matrix cells (all shards)", int64(idx))
 }
+
+func (c C12Case) Sample() interface{} {
+	var noise []string
+	for _, n := range c.Noise {
+		noise = append(noise, fmt.Sprintf("%s:%s(%s)", c12Dirs[n.Dir][len("hidi-config/"):], n.Name, n.Kind))
+	}
+	return map[string]interface{}{"keyboard files [user exact, user default, factory exact, factory default]": c.Kbd, "gamepad files": c.Pad,
+		"identifier matches": c.ID == c.Query, "device type": c.DevType, "missing directory": c.MissingDir, "noise": noise, "other devices' configs in": c.Others}
+}
